@@ -51,7 +51,7 @@ Proof.
                               In e0 (attr_get (fst p) d') /\ py_eq v' e0 = false).
     { intros d0 H0. destruct (IH _ _ _ _ _ I2 G' H0) as [EE [p [v' [e0 [Hp X]]]]].
       split; [exact EE|]. exists p, v', e0. split; [right; exact Hp | exact X]. }
-    destruct ((negb ic && is_formal_attr k')%bool) eqn:FB.
+    destruct ((negb (ic && is_prov_name "entity" k') && is_formal_attr k')%bool) eqn:FB.
     + destruct (attr_get k' d) as [|e0 rest0] eqn:AG.
       * exact (REST _ H).
       * destruct (py_eq v2 e0) eqn:PE; [exact (REST _ H)|].
